@@ -122,12 +122,19 @@ func (vm *Vm) Run(ctx context.Context, b []byte) ([]byte, error) {
 	vm.last = ""
 	// every run handles a new input: a match belongs to the run that made it
 	vm.st.ResetFlag(state.FLAG_INMATCH)
+	executed := false
 	for running {
 		r := vm.st.MatchFlag(state.FLAG_TERMINATE, true)
 		if r {
 			logg.InfoCtxf(ctx, "terminate set! bailing")
+			if !executed {
+				// blocked from the start: nothing ran, so there is nothing to render,
+				// whatever an earlier (failed) run left in the dirty flag.
+				vm.st.ResetFlag(state.FLAG_DIRTY)
+			}
 			return []byte{}, nil
 		}
+		executed = true
 
 		_ = vm.st.ResetFlag(state.FLAG_TERMINATE)
 
